@@ -1,7 +1,7 @@
 (* C11 property theorems: statements only, each closed by [exact]. *)
 From Boltons Require Import Lib.Prelude Lib.C11_Iface Spec.C11_Spec Model.C11_Model Gen.C11_Gen Check.C11_Check
      Proofs.C11_Lists Proofs.C11_Dead Proofs.C11_Inv Proofs.C11_Sets Proofs.C11_Refine Proofs.C11_Slice
-     Proofs.C11_Main Proofs.C11_Transfer Gen.C11_Src Proofs.C11_SrcEq Lib.C11_PyImp Gen.C11_Cull Proofs.C11_CullEq Gen.C11_Ops Proofs.C11_OpsEq.
+     Proofs.C11_Main Proofs.C11_Transfer Gen.C11_Src Proofs.C11_SrcEq Lib.C11_PyImp Gen.C11_Cull Proofs.C11_CullEq Gen.C11_Ops Proofs.C11_OpsEq Proofs.C11_SrcRun.
 From Coq Require Import Permutation Sorted.
 
 (* MAIN: for every compaction configuration, every history of the 29 public
@@ -193,6 +193,18 @@ Theorem C11_source_slice : forall s a b (k : option nat),
   end.
 Proof. exact source_slice. Qed.
 Print Assumptions C11_source_slice.
+
+(* CAPSTONE of the source tie: histories executed on the Gallina text regenerated from the current source
+   (src_step sends each operation to the regenerated method the harness calls for it) produce exactly the
+   reference's observations *)
+Theorem C11_source_step : forall s o, Inv s -> valid_op (m_live s) o = true -> src_step s o = m_step gen_cfg s o.
+Proof. exact source_step. Qed.
+Print Assumptions C11_source_step.
+
+Theorem C11_source_refinement : forall (digests : bool) (ops : list op),
+  valid_run [] ops = true -> src_run digests m_empty ops = spec_run digests [] ops.
+Proof. exact source_refinement. Qed.
+Print Assumptions C11_source_refinement.
 
 (* s[a:b:k], k > 0: iter_slice + islice = the list slice of CPython *)
 Theorem C11_slice : forall s a b k, Inv s -> valid_op (m_live s) (Slice a b k) = true ->
